@@ -1,4 +1,10 @@
-"""Registry of proof obligations per property and tier."""
+"""Registry of proof obligations per property and tier: one module per property in obl/."""
+import importlib
+import os
+import sys
+
+sys.path.insert(0, os.path.dirname(os.path.abspath(__file__)))
+sys.path.insert(0, os.path.join(os.path.dirname(os.path.abspath(__file__)), "obl"))
 
 ASSUMPTIONS = [
     "Go semantics as implemented by gosym (go/ssa v0.50.0 interpreter over bit-vector terms); validated per run by native replay of sampled solver models",
@@ -9,73 +15,23 @@ ASSUMPTIONS = [
 ]
 
 
-def ob(id, pkg, fn, args, **kw):
-    d = {"id": id, "pkg": pkg, "fn": fn, "args": list(args)}
-    d.update(kw)
-    return d
+def _mod(prop):
+    try:
+        return importlib.import_module(prop)
+    except ModuleNotFoundError:
+        return None
 
 
 def obligations(prop, tier):
-    q = tier == "quick"
-    L = []
-    if prop == "SMOKE":
-        L.append(ob("smoke/ws/3", "internal/jsonwire", "VerifSmokeWS", [3]))
-    if prop == "C01":
-        for fn, tag in (("VerifC01IsValid", "isvalid"), ("VerifC01Tokens", "tokens"), ("VerifC01Values", "values")):
-            for u in (False, True):
-                for d in (False, True):
-                    for n in ([1, 2, 3] if q else [1, 2, 3, 4]):
-                        L.append(ob("%s/full/n=%d/utf8=%d/dup=%d" % (tag, n, u, d), "jsontext", fn, [n, 0, u, d]))
-                    for n in ([4] if q else [5, 6]):
-                        L.append(ob("%s/sigma24/n=%d/utf8=%d/dup=%d" % (tag, n, u, d), "jsontext", fn, [n, 1, u, d]))
-    if prop == "C05":
-        T = [("??", 2, 2, 9), ("???", 2, 2, 2), ("[1,\"?\"]", 3, 3, 2), (" {\"?\":[?]} 3", 4, 3, 2), ("1{\"a?\":{", 4, 2, 3),
-             ("1{\"ab\":{", 64, 2, 2), ("1{\"a?\":?", 8, 2, 2), ("1 {\"a\":{\"?\":tru", 8, 2, 2)]
-        for i, (t, c, k, sr) in enumerate(T):
-            L.append(ob("chunk/t%d/cap=%d/calls=%d/symreads=%d" % (i, c, k, sr), "jsontext", "VerifC05Chunk", [t, c, k, sr], covers=["end"]))
-        F = [("??", 2, 2, 2, 3), ("[1,\"?\"]", 3, 3, 1, 6), (" {\"?\":[?]} 3", 4, 3, 1, 8), ("1{\"a?\":?", 8, 2, 2, 4)]
-        for i, (t, c, k, sr, mf) in enumerate(F):
-            L.append(ob("fault/t%d/cap=%d/calls=%d/symreads=%d/faultAt<=%d" % (i, c, k, sr, mf), "jsontext", "VerifC05Fault", [t, c, k, sr, mf], covers=["end", "fault-seen"]))
-    if prop == "C06":
-        B = (False, True)
-        for d in B:
-            for u in B:
-                for pre, k, sl, rl in ([(0, 2, 1, 2), (0, 3, 1, 1), (1, 2, 1, 3), (2, 2, 1, 2), (3, 2, 1, 2), (4, 2, 1, 3), (5, 2, 1, 2)] if q else
-                                       [(0, 2, 2, 3), (0, 3, 1, 2), (0, 4, 1, 1), (1, 2, 2, 4), (1, 3, 1, 3), (2, 3, 1, 2), (3, 3, 1, 2), (4, 2, 2, 4), (4, 3, 1, 3), (5, 3, 1, 2)]):
-                    L.append(ob("seq/pre=%d/k=%d/str=%d/raw=%d/dup=%d/utf8=%d" % (pre, k, sl, rl, d, u), "jsontext", "VerifC06Seq", [pre, k, sl, rl, d, u], covers=["accepted", "rejected"]))
-    if prop == "C10":
-        for n in ([1, 2, 5, 19, 20, 21] if q else list(range(1, 23))):
-            L.append(ob("parseuint/n=%d" % n, "internal/jsonwire", "VerifC10ParseUint", [n], timeout_ms=60000))
-    if prop == "C11":
-        B = (False, True)
-        for n in ([1, 2, 3] if q else [1, 2, 3, 4]):
-            for h in B:
-                for j in B:
-                    for a in B:
-                        L.append(ob("quote/n=%d/html=%d/js=%d/allow=%d" % (n, h, j, a), "internal/jsonwire", "VerifC11Quote", [n, h, j, a]))
-        for n in ([2, 3, 4] if q else [2, 3, 4, 5]):
-            for v in B:
-                L.append(ob("scan/n=%d/validate=%d" % (n, v), "internal/jsonwire", "VerifC11Scan", [n, v]))
-        T = ['"\\u????"', '"\\uD???\\uD???"', '"\\u????\\u??', '"??\\u00??"'] if q else ['"\\u????"', '"\\uD???\\uD???"', '"\\u????\\u??', '"\\uD8??\\?D???"', '"??\\u00??"', '"\\u????\\u????"', '"\\u?????"', '"\\uD8???????"', '"???\\u????"']
-        for i, t in enumerate(T):
-            for v in B:
-                L.append(ob("scanT/%d/validate=%d" % (i, v), "internal/jsonwire", "VerifC11ScanT", [t, v]))
-        for n in ([3, 4] if q else [3, 4, 5]):
-            for h, j, a, p in ((0, 0, 0, 0), (1, 1, 0, 0), (1, 0, 0, 1), (0, 1, 1, 1), (0, 0, 1, 0), (0, 0, 0, 1)):
-                L.append(ob("reformat/n=%d/html=%d/js=%d/allow=%d/preserve=%d" % (n, h, j, a, p), "internal/jsonwire", "VerifC11Reformat", [n, bool(h), bool(j), bool(a), bool(p)]))
-    if prop == "C19":
-        L.append(ob("flags/algebra", "internal/jsonflags", "VerifC19Flags", [], second="cvc5", covers=["end"]))
-        L.append(ob("flags/v1v2", "internal/jsonflags", "VerifC19V1V2", [], second="cvc5", covers=["end"]))
-    return L
+    m = _mod(prop)
+    return m.obligations(tier) if m else []
 
 
 def bounds_text(prop, tier):
-    return BOUNDS.get(prop, {}).get(tier, "")
+    m = _mod(prop)
+    return getattr(m, "BOUNDS", {}).get(tier, "") if m else ""
 
 
 def assumptions_for(prop):
-    return EXTRA_ASSUMPTIONS.get(prop, [])
-
-
-BOUNDS = {}
-EXTRA_ASSUMPTIONS = {}
+    m = _mod(prop)
+    return list(getattr(m, "ASSUMPTIONS", [])) if m else []
